@@ -15,7 +15,7 @@ RULE = ("Gaussian / NRZ pulse trains and band-limited random fields of 128..1024
 ASSUMPTIONS = ["'the NLSE' is the equation whose linear part is the all-pass filter of C07 and whose nonlinear part is the SPM closed form of this "
                "property (numpy's transform convention): dA/dz = -a/2 A + j b2/2 A_tt - b3/6 A_ttt + j g |A|^2 A, per polarisation",
                "dB->neper: the library uses 4.343; absolute loss asserted to 2e-5 of the exponent, phi_max-independence of the energy to 1e-10",
-               "convergence constant: err(phi_max) <= 6*phi_max*max(1, gamma*P_peak*L_eff) + 1e-6 (calibrated, >= 3x margin) and the error must shrink at least by 1.7x when phi_max is divided by 4"]
+               "convergence constant: err(phi_max) <= 6*phi_max*max(1, gamma*P_peak*L_eff) + 1e-6 (calibrated, >= 3x margin) and the error must shrink at least 3x when phi_max goes from 0.1 to 0.00625 (for nonlinear phases above 1 rad)"]
 TOLERANCES = {"energy_exponent_rel": 2e-5, "energy_phi_independence": 1e-10, "spm_rtol": 1e-9, "one_vs_two_pol": 1e-12, "step_phase_slack": 1e-9}
 MIN_CHECKS = {"fiber.finite_shape": 200, "fiber.energy": 200, "probe.step_phase": 100, "probe.sum_steps": 100, "spm.closed_form": 60, "nlse.converges": 12, "onepol.equals_x": 60}
 SHARDS = {"quick": 4}
@@ -305,7 +305,8 @@ def w_converge(ctx, rng, i):
     ok_bound = all(e <= 6 * phi * scale + 1e-6 for e, phi in zip(errs, (0.1, 0.025, 0.00625)))
     ctx.check("nlse.converges", ok_bound, f"relative error vs the NLSE reference {['%.3g' % e for e in errs]} for phi_max (0.1, 0.025, 0.00625) exceeds 6*phi_max*max(1, nonlinear phase={nlphase:.3g})", n_pol=n_pol, kind=kind)
     floor = 3e-6
-    ok_rate = nlphase < 1.0 or all(e2 <= max(e1 / 1.7, floor) for e1, e2 in zip(errs, errs[1:]))   # below 1 rad the fibre length, not phi_max, limits the step
+    # below 1 rad the fibre length, not phi_max, limits the step; above it a 16x smaller phi_max must buy at least a 3x smaller error
+    ok_rate = nlphase < 1.0 or (errs[2] <= max(errs[0] / 3, floor) and errs[1] <= max(errs[0] * 1.05, floor) and errs[2] <= max(errs[1] * 1.05, floor))
     ctx.check("nlse.rate", ok_rate, f"error does not shrink with phi_max: {['%.3g' % e for e in errs]} (nonlinear phase {nlphase:.3g} rad)", n_pol=n_pol, kind=kind)
     ctx.case(("conv", n_pol, kind, round(nlphase), b2 > 0, alpha > 0), sample=dict(fs=fs, n=n, n_pol=n_pol, kind=kind, peak=peak, L=L, alpha=alpha, beta_2=b2, beta_3=b3, gamma=gamma, errors=errs, reference_steps=steps, reference_selfconsistency=achieved) if i < 6 else None)
     ctx.bin("conv.err_over_phi", round(float(max(e / p for e, p in zip(errs, (0.1, 0.025, 0.00625))) / scale), 1))
